@@ -178,13 +178,13 @@ def check_case(case):
         drift, _ = P.buffer_drift(case, out.w, buf)
         info["max_rel_buffer_drift"] = drift
         if not drift <= DRIFT_MAX:
-            viol.append(Viol(dict(sig, component="xw-buffer-mismatch"),
+            viol.append(Viol(dict(sig, component="xw-buffer-mismatch", wild_newton_step=wild_newton_step(case, out)),
                              f"{name}: claims convergence but its model-fit buffer differs from X w + b by {drift:.3e} (relative)", drift=drift))
         # (3) from (X, y, w) alone: drift may not inflate the true violation beyond 2 tol
         if not viol:
             lim = 2 * tol
-            exc = c_true["vec"] - lim - 1e-10 * c_true["gscale"]
-            if (len(exc) and exc.max() > 0) or c_true["icpt"] > lim + 1e-10 * c_true["icpt_scale"]:
+            exc = c_true["vec"] - lim - 1e-8 * c_true["gscale"]
+            if (len(exc) and exc.max() > 0) or c_true["icpt"] > lim + 1e-8 * c_true["icpt_scale"]:
                 viol.append(Viol(dict(sig, component="drift-breaks-certificate"),
                                  f"{name}: stop_crit={out.stop:.3e} <= tol={tol:g}, but from (X, y, w) alone the violation is "
                                  f"{max(c_true['feat'], c_true['icpt']):.3e} > 2 tol (buffer drift {drift:.2e})"))
@@ -198,6 +198,25 @@ def check_case(case):
     if not viol:
         info["max_true_excess_over_tol_rel"] = float(max(0., (max(c_true["feat"], c_true["icpt"]) - tol) / tol))
     return result(viol, nontrivial, cl, info)
+
+
+def wild_newton_step(case, out):
+    """root-cause probe for ProxNewton buffer mismatches: do the first prox-Newton steps from the start point move
+    the coefficients by more than 1e3 x (size of start and final points)?  (saturated GLM: Hessian ~ 0; inside
+    the step computation the iterates are larger still, and round-off is relative to *them*)"""
+    if case["solver"]["name"] != "ProxNewton":
+        return False
+    import json
+    ref = 1. + float(np.max(np.abs(out.w))) + (float(np.max(np.abs(case["init"]["w"]))) if case.get("init") else 0.)
+    for mi, mp in ((1, 1), (1, 2), (2, 1), (3, 1)):
+        c = json.loads(json.dumps(case))
+        c["solver"]["max_iter"], c["solver"]["max_pn_iter"] = mi, mp
+        o = P.run(c)
+        if o.exc is not None or o.w is None:
+            continue
+        if np.max(np.abs(o.w)) > 1e3 * ref or not np.all(np.isfinite(o.w)):
+            return True
+    return False
 
 
 def multitask_fixpoint(case, W_full, c):
